@@ -8,7 +8,7 @@
 //! SUFFICIENT for "every snapshot is one consistent cut" is the protocol meta-argument (A3), which
 //! is not machine-checked here.
 #![allow(dead_code, unused)]
-use super::__v_hist_c08::{mk_core, spec_first_fit, spec_strictly_increasing};
+use super::__v_hist_c08::{mk_core, mk_local, spec_first_fit, spec_strictly_increasing};
 use super::*;
 use crate::__venv as env;
 use crate::__vsup::*;
@@ -89,7 +89,7 @@ fn g_flush<const B: usize>() {
     let sum: f64 = kani::any();
     // well-formed local state: no observation => nothing pending (count is the number of observations)
     kani::assume(cnt != 0 || sum.to_bits() == 0);
-    let mut local = LocalHistogramCore { histogram: h.clone(), counts: counts.to_vec(), count: cnt, sum };
+    let mut local = mk_local(&h, counts.to_vec(), cnt, sum);
     env::reset(0);
     env::watch_mutex(&h.core.collect_lock);
     local.flush();
@@ -124,6 +124,7 @@ fn g_flush<const B: usize>() {
     let n1 = env::n();
     local.flush();
     assert!(env::n() == n1, "C12.G-flush: second flush performed an atomic step");
+    kani::cover!(true);
     core::mem::forget(local);
 }
 
